@@ -179,7 +179,7 @@ func checkC18(w *World, r *Report) {
 							}
 						} else {
 							fv := fieldOf(info, val)
-							if fv == nil || fv.Name() != wantField || objOf(info, selBase(val)) != recv {
+							if fv == nil || w.canonName(fv) != wantField || objOf(info, selBase(val)) != recv {
 								bad = "it returns " + exprStr(val) + " instead of the resolving scope's own " + wantField
 							}
 						}
@@ -211,7 +211,7 @@ func checkC18(w *World, r *Report) {
 			n := 0
 			for _, nd := range fl.Nodes() {
 				for _, c := range callsIn(nd, false) {
-					if cal := callee(info, c); cal != nil && cal.Name() == "findDescriptor" {
+					if cal := callee(info, c); w.IsFn(cal, w.Godi, "(*provider).findDescriptor") {
 						n++
 						r.Check(sol.Before[nd].Has("guard-evaluated"), "R18.1", fmt.Sprintf("%s#lookup-after-builtins/%d", fi.Name(), n), c.Pos(), true,
 							"the registry lookup is only reached after the built-in test", "the registry is consulted before the built-in services: a registration could shadow them")
@@ -251,7 +251,7 @@ func checkC18(w *World, r *Report) {
 					m++
 					rcv, _, _ := methodCall(c)
 					fv := fieldOf(cinfo, rcv)
-					r.Check(fv != nil && fv.Name() == "rootScope", "R18.2", fmt.Sprintf("%s#on-root-scope/%d", ro.createAll.Name(), m), c.Pos(), false,
+					r.Check(fv != nil && w.canonName(fv) == "rootScope", "R18.2", fmt.Sprintf("%s#on-root-scope/%d", ro.createAll.Name(), m), c.Pos(), false,
 						"singletons are constructed on the provider's root scope", "singletons are constructed on "+exprStr(rcv)+", not on the provider's root scope")
 				}
 			}
@@ -322,7 +322,7 @@ func checkC18(w *World, r *Report) {
 			if !ok || len(as.Lhs) != 1 {
 				continue
 			}
-			if fv := fieldOf(info, as.Lhs[0]); fv != nil && fv.Name() == "context" && objOf(info, selBase(as.Lhs[0])) == sObj {
+			if fv := fieldOf(info, as.Lhs[0]); fv != nil && w.canonName(fv) == "context" && objOf(info, selBase(as.Lhs[0])) == sObj {
 				found = true
 				good := objOf(info, as.Rhs[0]) == ctxParam && sol.Before[n].Has("ctx=withvalue(parent,key,scope)")
 				def, _ := sol.Before[n].HasPrefix("ctx=")
@@ -369,7 +369,7 @@ func checkC18(w *World, r *Report) {
 					kill = append(kill, "ctx=*")
 					rhs := unparen(as.Rhs[i])
 					switch {
-					case owner == "scope" && in.Has("ctx-is-nil") && fieldOf(info, rhs) != nil && fieldOf(info, rhs).Name() == "context" && objOf(info, selBase(rhs)) == recv:
+					case owner == "scope" && in.Has("ctx-is-nil") && fieldOf(info, rhs) != nil && w.canonName(fieldOf(info, rhs)) == "context" && objOf(info, selBase(rhs)) == recv:
 						gen = append(gen, "ctx=param-or-default")
 					case owner == "provider" && in.Has("ctx-is-nil") && isCallTo(info, rhs, "context", "Background"):
 						gen = append(gen, "ctx=param-or-default")
@@ -401,7 +401,7 @@ func checkC18(w *World, r *Report) {
 		okPass := false
 		ast.Inspect(fi.Decl.Body, func(x ast.Node) bool {
 			if c, ok := x.(*ast.CallExpr); ok {
-				if cal := callee(info, c); cal != nil && cal.Name() == "newScope" {
+				if cal := callee(info, c); w.IsFn(cal, w.Godi, "newScope") {
 					for _, a := range c.Args {
 						if objOf(info, a) == cs.ctxObj {
 							okPass = true
